@@ -789,7 +789,7 @@ class PatternV:
         self.pattern = pattern
 
 
-BUILTINS = {"object", "divmod", "next", "iter", "reversed", "print", "input", "id", "setattr", "hasattr", "getattr", "callable", "round", "abs", "super", "map", "filter", "str", "int", "len", "isinstance", "bool", "list", "tuple", "enumerate", "zip", "all", "any", "float", "repr", "type", "dict", "set", "range", "sorted", "min", "max"}
+BUILTINS = {"object", "slice", "divmod", "next", "iter", "reversed", "print", "input", "id", "setattr", "hasattr", "getattr", "callable", "round", "abs", "super", "map", "filter", "str", "int", "len", "isinstance", "bool", "list", "tuple", "enumerate", "zip", "all", "any", "float", "repr", "type", "dict", "set", "range", "sorted", "min", "max"}
 
 
 def decorators(fn):
@@ -979,6 +979,10 @@ class Ev:
         raise AnalysisError("str() of %r is not modelled" % (v,))
 
     def to_int(self, v):
+        if self.oracle is not None and self.outside_value(v):
+            r = self.oracle("truth", v, None)
+            if isinstance(r, bool):
+                return int(r)  # int(<truth value the case decides>)
         if isinstance(v, bool):
             return int(v)
         if isinstance(v, int):
@@ -1927,6 +1931,9 @@ class Ev:
             raise Undecided("%s(%r)" % (name, items))
         if name in ("round", "abs", "min", "max") and args and all(isinstance(a, (int, float)) for a in args):
             return {"round": round, "abs": abs, "min": min, "max": max}[name](*args)
+        if name == "slice" and 1 <= len(args) <= 3:
+            a3 = [NONE, args[0], NONE] if len(args) == 1 else list(args) + [NONE] * (3 - len(args))
+            return Obj(None, {"start": a3[0], "stop": a3[1], "step": a3[2]}, closed=True, label="slice object")
         if name == "object" and not args and not kwargs:
             return Obj(None, {}, closed=True, label="object()")  # a fresh sentinel: equal to itself only
         if name == "type" and len(args) == 1:
@@ -2657,16 +2664,29 @@ class Ev:
             if isinstance(sl, ast.Slice):
                 b = {k: (self.ev(x, env, mod) if x is not None else NONE) for k, x in (("lo", sl.lower), ("hi", sl.upper), ("step", sl.step))}
                 return Ctor(".slice", dict({"of": v}, **b), kind="call")
+            if isinstance(sl, ast.Name):
+                sv = self.ev(sl, env, mod)
+                if isinstance(sv, Obj) and sv.label == "slice object":
+                    return Ctor(".slice", {"of": v, "lo": sv.fields["start"], "hi": sv.fields["stop"], "step": sv.fields["step"]}, kind="call")
             return Ctor(".item", {"of": v, "index": Str.lit(ast.unparse(sl))}, kind="call")
+        if isinstance(sl, ast.Name):
+            sv = self.ev(sl, env, mod)
+            if isinstance(sv, Obj) and sv.label == "slice object" and isinstance(v, ListV):
+                b = [None if x is NONE else x for x in (sv.fields["start"], sv.fields["stop"], sv.fields["step"])]
+                if all(x is None or (isinstance(x, int) and not isinstance(x, bool)) for x in b):
+                    return type(v)(v.items[slice(*b)])
         if isinstance(sl, ast.Slice):
             lo = self.ev(sl.lower, env, mod) if sl.lower is not None else None
             hi = self.ev(sl.upper, env, mod) if sl.upper is not None else None
-            if sl.step is not None or not all(x is None or (isinstance(x, int) and not isinstance(x, bool)) for x in (lo, hi)):
+            step = self.ev(sl.step, env, mod) if sl.step is not None else None
+            if not all(x is None or (isinstance(x, int) and not isinstance(x, bool)) for x in (lo, hi, step)):
                 raise AnalysisError("slice at line %d is not constant" % node.lineno)
             if isinstance(v, Str):
+                if step is not None:
+                    raise AnalysisError("string slice with a step at line %d" % node.lineno)
                 return str_slice(v, lo, hi)
             if isinstance(v, ListV):
-                return type(v)(v.items[lo:hi])
+                return type(v)(v.items[lo:hi:step])
             raise AnalysisError("slicing %r" % (v,))
         if isinstance(sl, ast.Tuple) and isinstance(v, ListV) and "ndarray" in getattr(v, "ext_types", ()):
             # numpy column of a 2-d array: a[:, k]
